@@ -2,7 +2,8 @@
 From Coq Require Import QArith List Bool PArith Arith Lia.
 From PV Require Import Base.PyData Base.Expr Base.Stmts C02.Model C02.CondPrint C02.ProofsLcs C02.ProofsLcsOpt
   C02.ProofsPrint C02.ProofsPrint2 C02.ProofsCond C02.Remap C02.ProofsRemap C02.PrintSeq C02.ProofsPrintSeq
-  C02.IndexDiff C02.ProofsIndexDiff C02.KeepText C02.ProofsKeepText C02.Read C02.ProofsRead.
+  C02.IndexDiff C02.ProofsIndexDiff C02.KeepText C02.ProofsKeepText C02.Read C02.ProofsRead
+  C02.ProofsReadE C02.ProofsReadC C02.ProofsReadS C02.KRename C02.ProofsKRename.
 
 (* ---------------- lcs.diff (used by CodeRecord.update_statements) ---------------------------- *)
 (* Applying the edit script computed for (old, new) to old gives new — for all lists over any type
@@ -199,3 +200,36 @@ Theorem read_expr_fuel_monotone :
   forall (f f' : nat) (ts : list tok) (v : expr) (rest : list tok),
     p_expr f ts = Ok v rest -> (f <= f')%nat -> p_expr f' ts = Ok v rest.
 Proof. intros f f' ts v rest H L. exact (lift_expr f ts v rest f' H L). Qed.
+
+(* The reader inverts the reference emitter: for EVERY program of abbreviated code (assignments, logical
+   IFs, IF / ELSE IF / ELSE / END IF blocks of any length, expressions and conditions of any depth) that
+   can be emitted at all (wf_prog: no Piecewise inside expressions, non-negative numerals, no literal
+   True/False, blocks with at least one branch), reading the emitted token sequence gives the program
+   back — with the fixed fuel budget of [read], so out-of-fuel never happens on emitted code. *)
+Theorem read_emit : forall l : list nmstmt, wf_prog l = true -> read (emit l) = Some l.
+Proof. exact read_emit_lemma. Qed.
+
+(* Composition with print_sound: the code printed for an assignment, written out as tokens and read back
+   by the reader, runs to the value of the assignment (all D, states, interpretations, under guard_print). *)
+Theorem roundtrip_stmt :
+  forall (fi : finterp) (D : list id) (x : id) (e : expr) (r : env) (l : list nmstmt) (v : Q),
+    print_stmt D x e = Some l -> wf_prog l = true ->
+    guard_print fi r D x e = true -> eval r fi e = Some v ->
+    exists code r', read (emit l) = Some code /\ nm_exec fi r code = Some r' /\
+                    (exists v', r' x = Some v' /\ Qeq v' v) /\ (forall y, y <> x -> r' y = r y).
+Proof.
+  intros fi D x e r l v Hp Hw Hg He.
+  destruct (print_sound_lemma fi D x e r l v Hp Hg He) as [r' [H1 [H2 H3]]].
+  exists l, r'. split; [exact (read_emit_lemma l Hw) | repeat split; assumption].
+Qed.
+
+(* ---------------- ADVAN5 / ADVAN7: renaming of the rate constants --------------------------------- *)
+(* Every entry the renaming loop of pk_param_conversion produces for a general linear model moves the
+   rate constant with BOTH of its compartments: K{i}{j} (and K{i}T{j}) becomes K{remap i}{remap j}
+   (j = 0, the output, stays 0), only for i <> j, only when i is remapped and j is remapped or the output,
+   and only when the new system has a flow between the renumbered compartments — for every number of
+   compartments, every remap and every flow relation; the loop never produces the plain name K. *)
+Theorem k_rename_consistent :
+  forall (n : nat) (remap : list (nat * nat)) (ncs : nat) (flow : nat -> nat -> bool) (k : kkey) (v : kval),
+    klookup (k_rename_loop n remap ncs flow) k = Some v -> entry_ok remap ncs flow k v = true.
+Proof. intros n remap ncs flow k v. apply k_rename_loop_ok. Qed.
